@@ -30,8 +30,7 @@ package supervisor
 //@ event KillInner = call supervisor.kill
 // the termination channel of a process: made in Exec, closed by its waiter (and by nobody else), never sent on; a receive on it
 // therefore succeeds only after the close, i.e. after Wait returned
-//@ event TerminationClosed = close local:supervisor.(*LocalSupervisor).Exec.termination
-//@ event TerminationSentOn = send local:supervisor.(*LocalSupervisor).Exec.termination
+// (the channel is known by the field it is recorded in, process.termination, whatever the local that holds it in Exec is called)
 //@ event TerminationFieldClosed = close supervisor.process.termination
 //@ event TerminationFieldSentOn = send supervisor.process.termination
 
@@ -50,7 +49,7 @@ package supervisor
 //@   ensures [C19: the-termination-event-does-not-wait-for-the-copy-of-the-output] delta(ProcStartedWithOutputCopiedByWait) == 0
 //@   ensures [C19: the-termination-event-does-not-wait-for-whoever-inherited-the-output] delta(ProcStartedWithUnboundedOutputWait) == 0
 //@   ensures [other-domains-are-a-no-op] req.Domain != "runtime" ==> r0 == nil && delta(ProcStart) == 0 && delta(WaiterSpawned) == 0
-//@   ensures [C19: only-the-waiter-closes-the-termination-channel] delta(TerminationClosed) == 0 && delta(TerminationSentOn) == 0 && delta(TerminationFieldClosed) == 0 && delta(TerminationFieldSentOn) == 0
+//@   ensures [C19: only-the-waiter-closes-the-termination-channel] delta(TerminationFieldClosed) == 0 && delta(TerminationFieldSentOn) == 0
 //@   ensures [start-failure-is-reported] delta(ProcStartFailed) == 1 ==> r0 != nil && delta(WaiterSpawned) == 0
 //@   ensures [one-waiter-per-started-process] req.Domain == "runtime" ==> delta(ProcStart) == 1 && delta(WaiterSpawned) == 1 - delta(ProcStartFailed) && (delta(WaiterSpawned) == 1 ==> r0 == nil && has(s.processMap, req.Name) && first(ProcStart) < first(WaiterSpawned))
 
@@ -62,7 +61,7 @@ package supervisor
 //@ event SignalRead = ret syscall.(WaitStatus).Signal
 //@ func (*LocalSupervisor).Exec$1
 //@   ensures [C19: the-status-is-the-process-state's-whatever-the-output-copy-reported] command.ProcessState != nil ==> delta(WaitStatusDecoded) == 1 && lastarg(WaitStatusDecoded, 0) == command.ProcessState
-//@   ensures [C19: the-termination-channel-is-closed-once-after-the-wait-and-before-the-event] delta(TerminationClosed) == 1 && first(ProcWaited) < first(TerminationClosed) && first(TerminationClosed) < first(ExitEventSent) && delta(TerminationSentOn) == 0
+//@   ensures [C19: the-termination-channel-is-closed-once-after-the-wait-and-before-the-event] delta(TerminationFieldClosed) == 1 && first(ProcWaited) < first(TerminationFieldClosed) && first(TerminationFieldClosed) < first(ExitEventSent) && delta(TerminationFieldSentOn) == 0
 //@   ensures [exactly-one-event-after-the-wait] delta(ProcWaited) == 1 && delta(ExitEventSent) == 1 && first(ProcWaited) < first(ExitEventSent)
 //@   ensures [status-or-signal-not-both] (lastarg(ExitEventSent, 0).Event.Signo == nil) != (lastarg(ExitEventSent, 0).Event.ExitStatus == nil)
 //@   ensures [the-event-carries-what-the-wait-status-says] delta(ExitCodeRead) == 1 ==> (lastret(ExitCodeRead) >= 0 ==> lastarg(ExitEventSent, 0).Event.ExitStatus != nil && (lastret(ExitCodeRead) < 2147483648 ==> deref(lastarg(ExitEventSent, 0).Event.ExitStatus) == lastret(ExitCodeRead)) && lastarg(ExitEventSent, 0).Event.Signo == nil) && (lastret(ExitCodeRead) < 0 ==> delta(SignalRead) == 1 && lastarg(ExitEventSent, 0).Event.Signo != nil && lastarg(ExitEventSent, 0).Event.ExitStatus == nil)
